@@ -85,6 +85,8 @@ func init() {
 }
 
 func runC01(p *chk.Prog, r *chk.Report) {
+	// an allocation re-homed under a renamed pool keeps its sharing key and ports (REHOME, shared with C03)
+	c03Rehome(p, r)
 	assignCommitsRule(p, r)
 	c01OwnAlloc(p, r)
 	c01Rest(p, r)
@@ -254,7 +256,14 @@ func c01ShareBody(p *chk.Prog, r *chk.Report) {
 	}
 	g := f.Graph()
 	ip := c01IPKey(f, g)
-	existing := definedBy(g, "RECV.sharingKeyForIP[IP]", chk.H("IP", ip))
+	existing0 := definedBy(g, "RECV.sharingKeyForIP[IP]", chk.H("IP", ip))
+	existing := func(e ast.Expr) bool {
+		// the recorded key, or what it points to (keys compared by value)
+		if st, isStar := ast.Unparen(e).(*ast.StarExpr); isStar && existing0(st.X) {
+			return true
+		}
+		return existing0(e)
+	}
 	// "the address has no sharing key yet": the looked-up pointer is nil, or - keys kept by value - the lookup's ok is false
 	noKey := chk.GSame(g.GPat(true, "E == nil", chk.H("E", existing)), chk.GBool(false, definedByIdx(g, f, "RECV.sharingKeyForIP[IP]", 1, chk.H("IP", ip))))
 	// the compatibility test: the call of sharingOK (found by its role), or its four comparisons spelt out at this place
@@ -765,7 +774,14 @@ func c01SharingInlined(p *chk.Prog, x *chk.R) {
 	}
 	g := f.Graph()
 	ip := c01IPKey(f, g)
-	existing := definedBy(g, "RECV.sharingKeyForIP[IP]", chk.H("IP", ip))
+	existing0 := definedBy(g, "RECV.sharingKeyForIP[IP]", chk.H("IP", ip))
+	existing := func(e ast.Expr) bool {
+		// the recorded key, or what it points to (keys compared by value)
+		if st, isStar := ast.Unparen(e).(*ast.StarExpr); isStar && existing0(st.X) {
+			return true
+		}
+		return existing0(e)
+	}
 	// "the address has no sharing key yet": the looked-up pointer is nil, or - keys kept by value - the lookup's ok is false
 	noKey := chk.GSame(g.GPat(true, "E == nil", chk.H("E", existing)), chk.GBool(false, definedByIdx(g, f, "RECV.sharingKeyForIP[IP]", 1, chk.H("IP", ip))))
 	soleTenant := chk.GNever()
